@@ -45,7 +45,7 @@ META = {
     "rule": "6-16 ops: control changes (1-3 signals; reverts after 1-10 cycles), UTMI packets requested 0-3 cycles around a change, "
             "DIR take-overs triggered at regcmd/regdata/regstp/txcmd phases; per-run NXT delays and throttle",
 }
-TIERS = {"quick": {"runs": 2400, "wall": 70}, "thorough": {"runs": 24000, "wall": 900}}
+TIERS = {"quick": {"runs": 4800, "wall": 70}, "thorough": {"runs": 24000, "wall": 900}}
 
 FUNC_SIGS = ["xcvr_select", "term_select", "op_mode", "suspend"]
 OTG_SIGS = ["id_pullup", "dp_pulldown", "dm_pulldown", "chrg_vbus", "dischrg_vbus", "use_external_vbus_indicator"]
